@@ -47,7 +47,7 @@ def split_statements(script):
 
 class Statement(object):
   __slots__ = ('index', 'sql', 'reads', 'creates', 'drops', 'inserts', 'attaches',
-               'error', 'final', 'nrows', 'result')
+               'error', 'final', 'nrows', 'result', 'conn')
 
   def __init__(self, index, sql):
     self.index = index
@@ -61,6 +61,7 @@ class Statement(object):
     self.final = False
     self.nrows = None
     self.result = None
+    self.conn = 0
 
   def brief(self):
     return {'i': self.index, 'sql': ' '.join(self.sql.split())[:70],
@@ -102,6 +103,7 @@ class Proxy(object):
   def __init__(self, world, orig_connect, database=':memory:'):
     self.w = world
     world.connections += 1
+    self.conn_id = world.connections
     self.c = orig_connect(database)
     self.c.execute('PRAGMA busy_timeout=0')
     self.c.set_authorizer(self._auth)
@@ -131,6 +133,7 @@ class Proxy(object):
     w = self.w
     k = len(w.statements) + 1
     st = Statement(k, sql)
+    st.conn = self.conn_id
     w.statements.append(st)
     f = w.fault_at('abort', k)
     if f:
